@@ -23,8 +23,9 @@ def cases(draw, ml):
     rests = []
     sub = gen.tree_descs(3, max_depth=2, min_leaves=2)
     for _ in range(nrest):
-        rests.append(gen.substitute_leaves(draw, o, sub) if draw(st.booleans()) else o)
-    return {'o': o, 'i': i, 'rests': rests, 'cfg': draw(gen.configs(predicates=['none', 'never'])),
+        rests.append(gen.substitute_leaves(draw, o, sub, none_too=draw(st.booleans())) if draw(st.booleans()) else o)
+    return {'o': o, 'i': i, 'rests': rests, 'cfg': draw(gen.configs(predicates=['none', 'never', 'marker3', 'marker3'])),
+            'nones': draw(st.booleans()),
             'vary': draw(st.sampled_from([None, None, None, 'second', 'last'])),
             'given_inner': draw(st.booleans()),
             'fault': draw(st.sampled_from([None, None, None, 'nil', 'ns', 'count']))}
@@ -38,7 +39,8 @@ class C10(runner.Prop):
             'leafless structures; non-trivial = m >= 2 and n >= 2; distinct = sha1(case)')
     ASSUMPTIONS = [
         'expected result is built by the model: rebuild(inner, [rebuild(outer, column_j)])',
-        'predicates none/never only (tree_transpose re-flattens the composite tree with the predicate)',
+        'predicates none/never and marker3 (leaf labels are 3-tuples only the predicate keeps whole: every internal flatten must receive it); '
+        'with none_is_leaf=True a third of the labels are None',
     ]
     tree_keys = ('o', 'i')
 
@@ -61,12 +63,16 @@ class C10(runner.Prop):
             I = optree.tree_structure(i_, **kw)
             ctx.nontrivial(M >= 2 and N >= 2)
             ctx.label(f'm={min(M, 3)}', f'n={min(N, 3)}')
-            lab = [[U.Leaf(1001 + 2 * (a * 100 + b)) for b in range(N)] for a in range(M)]
+            mk = self.leaf_maker(case, cfg)
+            lab = [[mk(a, b) for b in range(N)] for a in range(M)]
             comp = model.rebuild(mso, iter([model.rebuild(msi, iter(row)) for row in lab]))
+            tkw = {'is_leaf': kw['is_leaf']} if 'is_leaf' in kw else {}
+            if cfg['pred'] == 'marker3':
+                ctx.label('marker_leaves')
             if M == 0 or N == 0:
                 ctx.label('degenerate_leafless')
                 try:
-                    optree.tree_transpose(O, I, comp)
+                    optree.tree_transpose(O, I, comp, **tkw)
                     ctx.fail('transpose/empty_accepted', f'O={O} I={I}')
                 except ValueError:
                     pass
@@ -83,7 +89,7 @@ class C10(runner.Prop):
                 return
             # ---- index law
             try:
-                res = optree.tree_transpose(O, I, comp)
+                res = optree.tree_transpose(O, I, comp, **tkw)
             except Exception as e:  # noqa: BLE001
                 ctx.fail('transpose/raises', f'{type(e).__name__}: {e}; O={O} I={I}')
                 return
@@ -96,7 +102,7 @@ class C10(runner.Prop):
                 ctx.fail('transpose/structure', f'{rs} vs {I.compose(O)}')
             # ---- involution
             try:
-                back = optree.tree_transpose(I, O, res)
+                back = optree.tree_transpose(I, O, res, **tkw)
                 d = model.same_tree(comp, back)
                 if d:
                     ctx.fail('transpose/involution', d)
@@ -109,7 +115,7 @@ class C10(runner.Prop):
                 try:
                     if fault == 'nil':
                         I2 = optree.tree_structure(i_, **dict(kw, none_is_leaf=not cfg['nil']))
-                        optree.tree_transpose(O, I2, comp)
+                        optree.tree_transpose(O, I2, comp, **tkw)
                         ctx.fail('transpose/nil_mismatch_accepted', f'O={O} I={I2}')
                     elif fault == 'ns':
                         # two specs with different non-empty recorded namespaces
@@ -120,7 +126,7 @@ class C10(runner.Prop):
                             optree.tree_transpose(O2, I3, 0)
                             ctx.fail('transpose/ns_mismatch_accepted', f'{O2.namespace!r} vs {I3.namespace!r}')
                     elif fault == 'count':
-                        optree.tree_transpose(O, I, (comp, U.Leaf(7)))
+                        optree.tree_transpose(O, I, (comp, U.Leaf(7)), **tkw)
                         ctx.fail('transpose/wrong_count_accepted', '')
                 except (ValueError, TypeError):
                     pass
@@ -129,9 +135,26 @@ class C10(runner.Prop):
             # ---- tree_transpose_map
             self.transpose_map(case, cfg, kw, m, o, mso, msi, I, ctx)
 
+    @staticmethod
+    def leaf_maker(case, cfg):
+        """labelled leaf (a, b): a Leaf object; a marker 3-tuple when the predicate is `marker3` (it would be
+        traversed if some internal flatten forgot the predicate); None for some positions when None is a leaf"""
+        marker = cfg['pred'] == 'marker3'
+        nones = cfg['nil'] and case.get('nones')
+
+        def mk(a, b):
+            if nones and (a + 2 * b) % 3 == 0:
+                return None
+            return ('\u00a7', a, b) if marker else U.Leaf(1001 + 2 * (a * 100 + b))
+        return mk
+
     def transpose_map(self, case, cfg, kw, m, o, mso, msi, I, ctx):
         rests = [gen.build(r) for r in case['rests']]
         m0 = model.Model(cfg['nil'], cfg['ns'], None, gen.insertion_mode(cfg))
+        mk = self.leaf_maker(case, cfg)
+        if cfg['pred'] == 'marker3' or (cfg['nil'] and case.get('nones')):
+            # the mapped tree itself carries marker / None leaves (same structure, rebuilt by the model)
+            o = model.rebuild(mso, iter([mk(a, -1) for a in range(mso.num_leaves())]))
         oleaves, opaths, _ = m.flatten(o)
         if not all(model.spec_prefix(mso, m0.structure(r)) for r in rests):
             return
@@ -145,7 +168,7 @@ class C10(runner.Prop):
             def f(*args):
                 k = len(calls)
                 calls.append(args)
-                row = [U.Leaf(1001 + 2 * (k * 100 + b)) for b in range(N)]
+                row = [mk(k, b) for b in range(N)]
                 out = model.rebuild(msi, iter(row))
                 if vary and ((vary == 'second' and k == 1) or (vary == 'last' and k == M - 1)):
                     if msi.kind == 'tuple' and len(msi.children) <= 2:
@@ -189,8 +212,7 @@ class C10(runner.Prop):
                 if len(args) != len(want) or any(x is not y for x, y in zip(args, want)):
                     ctx.fail(f'{name}/args', f'call {k}: {args!r} vs {want!r}')
                     break
-            want = model.rebuild(msi, iter([model.rebuild(mso, iter([U.Leaf(1001 + 2 * (a * 100 + b)) for a in range(M)]))
-                                            for b in range(N)]))
+            want = model.rebuild(msi, iter([model.rebuild(mso, iter([mk(a, b) for a in range(M)])) for b in range(N)]))
             d = model.same_tree(want, res, leaf_eq=LBL)
             if d:
                 ctx.fail(f'{name}/result', d)
